@@ -378,6 +378,7 @@ class Scope:
     def __init__(self):
         self.value_map = {}
         self.block_map = {}
+        self.undefined_values = {}
 
 
 class DictReader:
@@ -386,7 +387,6 @@ class DictReader:
     def __init__(self):
         # self.subroutines = []
         self.scopes = []
-        self.undefined_values = {}
 
     def construct(self, json_txt):
         d = json.loads(json_txt)
@@ -411,7 +411,7 @@ class DictReader:
             subroutine = self.construct_subroutine(json_subroutine)
             module.add_function(subroutine)
 
-        assert not self.undefined_values
+        assert not self.scopes[-1].undefined_values
         self.leave_scope()
 
         return module
@@ -638,8 +638,9 @@ class DictReader:
         return typ
 
     def register_value(self, value):
-        if value.name in self.undefined_values:
-            old_value = self.undefined_values.pop(value.name)
+        undefined_values = self.scopes[-1].undefined_values
+        if value.name in undefined_values:
+            old_value = undefined_values.pop(value.name)
             old_value.replace_by(value)
         assert value.name not in self.scopes[-1].value_map
         self.scopes[-1].value_map[value.name] = value
@@ -656,11 +657,12 @@ class DictReader:
                 value = scope.value_map[name]
                 break
         else:
-            if name in self.undefined_values:
-                value = self.undefined_values[name]
+            undefined_values = self.scopes[-1].undefined_values
+            if name in undefined_values:
+                value = undefined_values[name]
             else:
                 value = ir.Undefined(name, ir.ptr)
-                self.undefined_values[name] = value
+                undefined_values[name] = value
             if ty is not None:
                 value.ty = ty
         return value
@@ -669,7 +671,16 @@ class DictReader:
         self.scopes.append(Scope())
 
     def leave_scope(self):
-        self.scopes.pop()
+        scope = self.scopes.pop()
+        if self.scopes:
+            # What is still undefined, must be defined later on in the
+            # enclosing scope:
+            undefined_values = self.scopes[-1].undefined_values
+            for name, value in scope.undefined_values.items():
+                if name in undefined_values:
+                    value.replace_by(undefined_values[name])
+                else:
+                    undefined_values[name] = value
 
     # def register_block(self, block):
     #     if block.name in self.block_map:
